@@ -203,10 +203,10 @@ def structurally_incomplete(frame):
     return None
 
 
-def value_overrun(frame):
-    """Independent of the library: a text string, byte string or big integer inside the request header or inside
-    one of the batch items the batch count announces, whose length field promises more bytes than the frame still
-    holds, cannot have been 'fully decoded' - whatever value a decoder makes of it is not the value that was sent.
+def value_overrun_at(frame):
+    """Independent of the library: the offset of a text string, byte string or big integer inside the request header
+    or inside one of the batch items the batch count announces, whose length field promises more bytes than its
+    enclosing structure (clamped to the frame) still holds; None if there is none.
     Structures are clamped to what is there (the library tolerates short structures whose missing tail is optional)
     and fixed-size primitives are taken as 8 bytes whatever their length field says (the library reads them so)."""
     def walk(off, end, depth, top=False):
@@ -228,12 +228,12 @@ def value_overrun(frame):
                         i = frame.find(b'\x42\x00\x0d\x02\x00\x00\x00\x04', off + 8, min(end, off + 8 + ln))
                         limit[0] = struct.unpack('!i', frame[i + 8:i + 12])[0] if (i >= 0 and i + 12 <= len(frame)) else 0
                     r = walk(off + 8, min(end, off + 8 + ln), depth + 1)
-                    if r:
+                    if r is not None:
                         return r
                 off = off + 8 + ln
             elif typ in (4, 7, 8):
                 if off + 8 + ln > end:
-                    return 'value-overrun'
+                    return off
                 off = off + 8 + ln + ((8 - ln % 8) % 8)
             elif typ in (2, 3, 5, 6, 9, 10):
                 off = off + 16
@@ -244,6 +244,27 @@ def value_overrun(frame):
     if len(frame) < 16 or frame[:4] != b'\x42\x00\x78\x01':
         return None
     return walk(8, len(frame), 1, top=True)
+
+
+def value_overrun(frame):
+    """'value-overrun' when the frame holds an item that promises more bytes than are there (value_overrun_at) *and the
+    decoder reads that item*.  The library's payload readers pick the fields they know by tag and leave whatever else
+    a structure holds unread; bytes the decoder never looks at are not part of what it decoded, and the property does
+    not ask a decoder to refuse them (a 150-second coverage-guided run on the unchanged tree produces such frames
+    readily: one inserted byte shifts the rest of a payload out of alignment, the shifted rest is skipped).  Whether
+    the item is read is decided by a differential run, not by a schema: every read of an item checks its type byte
+    first, so the item is read iff giving it an invalid type (0x0C) changes what the decoder does with the frame.
+    An overrunning item that is read cannot have been 'fully decoded', whatever value the decoder makes of it."""
+    off = value_overrun_at(frame)
+    if off is None:
+        return None
+    if not decodable(frame):
+        return 'value-overrun'          # refused anyway; the rule only matters for frames the decoder accepts
+    tampered = bytearray(frame)
+    tampered[off + 3] = 0x0C
+    if decodable(bytes(tampered)):
+        return None                     # the decoder never looks at this item
+    return 'value-overrun'
 
 
 def decodable(frame):
